@@ -1,6 +1,7 @@
 """Rules about code hashing, hash rules, version computation and the dependency closure
 (shared by C01, C03, C13, C14)."""
 import ast
+import re
 import types
 
 from .. import astutil as A
@@ -43,6 +44,18 @@ LOCATION_ATTRS = {"co_filename", "co_firstlineno", "co_lnotab", "co_linetable", 
 
 
 # --------------------------------------------------------------------------------- helpers
+def _fa_live(ck, qual):
+    """FA of a function; when the CFG with explicit exception edges leaves statements of it unreachable (`try: return table[key]` /
+    `except KeyError: pass` in front of the body: a bare subscript is not a raising statement there), the CFG on which subscripts and
+    attribute reads may raise is used instead."""
+    fa = FA(ck, qual)
+    if fa.exc_mode != "all" and any(not fa.nodes(st) for st in fa.stmts((ast.Assign, ast.Return, ast.Expr, ast.AugAssign))):
+        alt = FA(ck, qual, exc_mode="all")
+        if sum(1 for st in alt.stmts() if alt.nodes(st)) > sum(1 for st in fa.stmts() if fa.nodes(st)):
+            return alt
+    return fa
+
+
 def _flow(fa, expr, at=None, _seen=None, _out=None):
     """Every AST node whose value can reach `expr` by evaluation and copying: the sub-expressions of
     `expr` and, for each local name read in it, the sub-expressions of the values assigned by the
@@ -488,6 +501,25 @@ def _split_atoms(t, positive):
 
 
 def _collection_spec(fa, expr, at, depth=4):
+    """_collection_spec0, with an iterable `filter(<predicate>, <collection>)` read as the collection plus one more filter atom."""
+    spec = _collection_spec0(fa, expr, at, depth)
+    for _i in range(3):
+        if spec is None or spec.get("iter_at") is None:
+            return spec
+        try:
+            it = fa.expand(spec["iter"], spec["iter_at"])
+        except Exception:  # noqa
+            return spec
+        if not (isinstance(it, ast.Call) and isinstance(it.func, ast.Name) and it.func.id == "filter" and len(it.args) == 2 and not it.keywords):
+            return spec
+        pred, coll = it.args
+        var = ast.Name(id=spec["var"], ctx=ast.Load())
+        atom = var if A.is_none(pred) else ast.Call(func=pred, args=[var], keywords=[])
+        spec = dict(spec, iter=coll, atoms=list(spec["atoms"]) + [(ast.fix_missing_locations(ast.copy_location(atom, it)), True)])
+    return spec
+
+
+def _collection_spec0(fa, expr, at, depth=4):
     """What collection an expression builds, whatever its spelling: a comprehension / generator (possibly wrapped in
     set() / list() / tuple() / frozenset()), a local assigned one, or a local initialised empty and filled by
     `.add` / `.append` in ONE loop whose body only filters (`if c: continue` guards, nested ifs).  Returns a dict
@@ -496,7 +528,7 @@ def _collection_spec(fa, expr, at, depth=4):
     if depth <= 0 or expr is None:
         return None
     if isinstance(expr, ast.Call) and isinstance(expr.func, ast.Name) and expr.func.id in ("set", "list", "tuple", "frozenset") and len(expr.args) == 1 and not expr.keywords:
-        return _collection_spec(fa, expr.args[0], at, depth - 1)
+        return _collection_spec0(fa, expr.args[0], at, depth - 1)
     if isinstance(expr, (ast.ListComp, ast.SetComp, ast.GeneratorExp)):
         if len(expr.generators) != 1 or not isinstance(expr.generators[0].target, ast.Name):
             return None
@@ -511,7 +543,7 @@ def _collection_spec(fa, expr, at, depth=4):
             return None
         d = ds[0]
         if A.norm(d.value) not in _EMPTY_INIT:
-            return _collection_spec(fa, d.value, d.node, depth - 1)
+            return _collection_spec0(fa, d.value, d.node, depth - 1)
         name = expr.id
         muts = [c for c in fa.calls() if isinstance(A.call_recv(c), ast.Name) and A.call_recv(c).id == name]
         adds = [c for c in muts if A.call_attr(c) in ("add", "append") and len(c.args) == 1]
@@ -1132,9 +1164,17 @@ def check_hash_input_coverage(ck, R):
             # a remembered value: whether the key it is remembered under determines the defaults and the captured values as well
             # is decided where the table is filled (check_no_remembered_hash_inputs, C01.R13 / C13.R7)
             continue
+        # (single-return style: the documented fallback may be assigned to the returned variable in the branch for callables
+        # without code - a path through that assignment returns the fallback, not a code hash)
+        fallback = []
+        if isinstance(v, ast.Name):
+            for s_ in outer.stmts(ast.Assign):
+                if any(isinstance(t_, ast.Name) and t_.id == v.id for t_ in s_.targets) and isinstance(s_.value, ast.Call) \
+                        and A.call_attr(s_.value) in ("repr", "_stable_repr", "str") and [A.norm(a) for a in s_.value.args] == ["fn"]:
+                    fallback += outer.nodes(s_)
         for attr in FUNC_RELEVANT:
             nodes = outer.nodes_all(by_attr.get(attr, []))
-            ok = bool(nodes) and all(outer.cfg.must_pass(nodes, i) for i in outer.nodes(r))
+            ok = bool(nodes) and all(outer.cfg.must_pass(set(nodes) | set(fallback), i) for i in outer.nodes(r))
             ck.ob(R, outer.key(r, "return-after-" + attr), ok, "this return is reached only after %s was read" % attr if ok else
                   "fn_code_hash can return a code hash without reading %s on that path (early return / cache keyed by the code object): "
                   "a definition re-executed with only a default changed keeps its version" % attr, outer.where(r))
@@ -2932,8 +2972,16 @@ def check_update_protocol(ck, R):
     # flags normalised away), and the protocol events (recompute, bump, store) it passes, in order.
     GEN = "MementoFunction._global_fn_generation"
     CACHE = "MementoFunction._global_fn_version_cache"
+
+    def cls_text(t):
+        """the class-level generation counter and version cache under one designator, however the class is reached from a method
+        (type(self).X, self.__class__.X, a read through the instance): reading them, and storing INTO the table, reaches the one
+        object the class holds"""
+        return re.sub(r"(?:\btype\(self\)|\bself\.__class__|\bself)\.(_global_fn_generation|_global_fn_version_cache)\b", r"MementoFunction.\1", t)
+
     paths = _exit_paths(fa)
     ck.need(paths is not None, "_update_dependencies: too many paths")
+    paths = [(p_, {cls_text(t_): pol_ for t_, pol_ in lits_.items()}) for (p_, lits_) in paths]
 
     def changed_coll(e):
         """'exact' for `[r for r in self._hash_rules if r.did_change()]` (any comprehension kind / variable name),
@@ -3125,9 +3173,9 @@ def check_update_protocol(ck, R):
         at_ = fa.nodes(s_)[0]
         if isinstance(s_, ast.Assign):
             for t in s_.targets:
-                if isinstance(t, ast.Subscript) and fa.xnorm(t.value, at_) == CACHE:
+                if isinstance(t, ast.Subscript) and cls_text(fa.xnorm(t.value, at_)) == CACHE:
                     puts.append((s_, t.slice if len(s_.targets) == 1 else None, s_.value))
-        elif isinstance(s_.value, ast.Call) and A.call_recv(s_.value) is not None and fa.xnorm(A.call_recv(s_.value), at_) == CACHE:
+        elif isinstance(s_.value, ast.Call) and A.call_recv(s_.value) is not None and cls_text(fa.xnorm(A.call_recv(s_.value), at_)) == CACHE:
             c_ = s_.value
             if A.call_attr(c_) == "__setitem__" and len(c_.args) == 2:
                 puts.append((s_, c_.args[0], c_.args[1]))
@@ -3151,7 +3199,7 @@ def check_update_protocol(ck, R):
         if okv:
             bound = dict(zip(flds, v.args))
             bound.update({k.arg: k.value for k in v.keywords})
-            okv = gen_field in bound and fa.xnorm(bound[gen_field], at_) == GEN \
+            okv = gen_field in bound and cls_text(fa.xnorm(bound[gen_field], at_)) == GEN \
                 and any(f_ != gen_field and fa.xnorm(e_, at_) == "self._recompute_version()" for f_, e_ in bound.items()) \
                 and fa.xnorm(key_, at_) == "self.qualified_name_without_version"
         ok_c = ok_c and okv
@@ -4093,7 +4141,7 @@ def _chain_through_unwrap(fa, e, at):
 def check_dotted_names(ck, R):
     ck.rule(R, "name extraction: the source visitor records bare names and attribute chains, and removes exactly the "
                "function's locals and cell variables (and chains rooted at them)", 4)
-    fa = FA(ck, CH + ".list_dotted_names")
+    fa = _fa_live(ck, CH + ".list_dotted_names")
     # the nested visitor class
     cls = None
     for n in A.walk_body(fa.node):
